@@ -27,8 +27,9 @@ type tcpHandler struct {
 	tcpListener    *net.TCPListener
 	isListenClosed int32
 
-	pool  *gpool.Pool
-	conns sync.Map
+	pool        *gpool.Pool
+	poolRelease sync.Once
+	conns       sync.Map
 }
 
 type connInfo struct {
@@ -143,10 +144,16 @@ func (t *tcpHandler) Handle() error {
 			t.conns.Delete(key)
 		}(conn)
 	}
-	if t.pool != nil {
-		t.pool.Release()
-	}
 	return nil
+}
+
+// releasePool stops the workers. Requests that were read from a connection before the
+// shutdown may still be waiting in the pool's queue, so this happens only once every
+// connection has drained (see CloseIdles), not when the accept loop ends.
+func (t *tcpHandler) releasePool() {
+	if t.pool != nil {
+		t.poolRelease.Do(t.pool.Release)
+	}
 }
 
 func (t *tcpHandler) OnShutdown() {
@@ -200,6 +207,9 @@ func (t *tcpHandler) CloseIdles(n int64) bool {
 		conn.conn.Close()
 		return true
 	})
+	if allClosed {
+		t.releasePool()
+	}
 	return allClosed
 }
 
